@@ -787,8 +787,10 @@ def inline_new_helpers(data, known_fns):
             if q in known_fns or (vis.startswith("pub") and "crate" not in vis and "super" not in vis):
                 continue
             g = node.get("generics") or ""
-            if "Fn" in g or "impl " in " ".join(str(p.get("ty")) for p in node["params"]):
-                continue  # helpers taking closures are left alone
+            gnames = set(re.findall(r"\b([A-Z]\w*)\b(?=\s*[:,>])", g)) | set(re.findall(r"<\s*([A-Z]\w*)|,\s*([A-Z]\w*)", g) and [x for t in re.findall(r"<\s*([A-Z]\w*)|,\s*([A-Z]\w*)", g) for x in t if x])
+            ptys = ["".join(str(p.get("ty") or "").replace("&", " ").replace("mut ", " ").split()) for p in node["params"]]
+            if "Fn" in g or any("impl" in t or "dyn" in t or t in gnames for t in ptys):
+                continue  # helpers taking closures (or values of a bare generic type) are left alone
             if _has_return(node["body"]):
                 continue
             if any((p.get("name") is None) or (p.get("name") != "self" and (p.get("pat") or {}).get("k") != "PIdent") for p in node["params"]):
